@@ -76,6 +76,18 @@ pub fn exec(w: &mut World, op: &Value) -> bool {
                 st.recheck(&held);
             }) && ok
         }
+        "leak" => {
+            let p = s(op, "p").to_string();
+            let mut ok = true;
+            let okr = &mut ok;
+            w.mutate("leak", move |st, mc, root| {
+                let found = st.survey(mc, root, None);
+                let Some(ps) = st.serial_of(&p) else { *okr = false; return };
+                let Some(pp) = found.get(&ps).copied() else { *okr = false; st.diverged = true; return };
+                *okr = st.leak(mc, ps, pp);
+            });
+            ok
+        }
         "link" | "unlink" | "wlink" | "wunlink" | "barrier" => {
             let p = s(op, "p").to_string();
             let c = if op.get("c").is_some() { s(op, "c") } else { s(op, "t") }.to_string();
@@ -443,9 +455,13 @@ pub fn replay(beh: &Value, beh_id: usize, epilogue: &str) -> ReplayResult {
     };
     for w in ws.iter_mut() {
         if epilogue == "c02" && w.alive() {
-            w.call("finish_cycle", 0, "P1", false, false, None);
-            w.call("finish_cycle", 0, "P1", false, false, None);
+            // (a collection that cannot finish -- a reachable RefLock frozen by a leaked RefMut makes
+            // every trace panic -- promises nothing about what is left)
+            let done = w.call("finish_cycle", 0, "P1", false, false, None) & w.call("finish_cycle", 0, "P1", false, false, None);
             w.observe();
+            if !done {
+                continue;
+            }
             ev!("{{\"ev\":\"c02_check\",\"a\":{},\"count\":{},\"phase\":\"{}\"}}", w.st.id, w.metrics.total_gc_count(), w.phase());
         }
     }
